@@ -2647,8 +2647,9 @@ class Parameters:
             if k in self_ and hasattr(self_[k], '_autotrigger_value')
         ]
 
+        trigger_objs = {tp: self_[tp] for tp in trigger_params}
         for tp in trigger_params:
-            self_[tp]._mode = 'set'
+            trigger_objs[tp]._mode = 'set'
 
         values = self_.values()
         restore = {k: values[k] for k, v in kwargs.items() if k in values}
@@ -2672,7 +2673,12 @@ class Parameters:
                     p = self_[tp]
                     p._mode = 'reset'
                     setattr(self_or_cls, tp, p._autotrigger_reset_value)
-                    p._mode = 'set-reset'
+                    # At class level an assignment (above, or this very
+                    # reset) may have given the class its own copy of an
+                    # inherited Event: none of the objects involved may
+                    # stay in 'set' or 'reset' mode
+                    for event_param in (trigger_objs[tp], p, self_[tp]):
+                        event_param._mode = 'set-reset'
         return restore
 
     # PARAM3_DEPRECATION
